@@ -119,3 +119,95 @@ pub fn replay(args: &HashMap<String, String>) {
     rep.traces = rep.evaluations;
     rep.write(outp);
 }
+
+// ---------------------------------------------------------------- T direction
+// Seeded random driver: runs the real code on generated CLVM and writes one
+// trace record per run for Trace_Clvm.tla; the same decisions are also taken
+// here so that replay files can be written for any violation.
+pub fn drive(args: &HashMap<String, String>) {
+    use crate::gen_clvm::ClvmGen;
+    use rand::SeedableRng;
+    use std::io::Write;
+    let n: usize = args.get("n").map(|s| s.parse().unwrap()).unwrap_or(1000);
+    let trace = args.get("trace").expect("--trace");
+    let outp = args.get("out").expect("--out");
+    let opzoo = args.contains_key("opzoo");
+    let seed = crate::util::seed_from_env();
+    let mut g = ClvmGen { rng: rand_chacha::ChaCha8Rng::seed_from_u64(seed ^ 0xC04C06), opzoo };
+    let mut cases = vec![];
+    use rand::Rng;
+    for i in 0..n {
+        let depth = 1 + (i % 5);
+        let prog = g.prog(depth, i % 3 != 0);
+        let env = match g.rng.random_range(0..4) {
+            0 => g.list_env(90),
+            1 => g.list_env(12),
+            _ => g.value(4),
+        };
+        cases.push(json!({"prog": prog.to_json(), "env": env.to_json()}));
+    }
+    let jobs: Vec<Value> = cases
+        .iter()
+        .map(|v| json!({"op": "clvm", "prog": v["prog"], "env": v["env"], "opt": true, "spellings": ["int"]}))
+        .collect();
+    let cfg = PoolCfg { batch: 32, timeout: Duration::from_secs(10), ..PoolCfg::default() };
+    let results = run_jobs(jobs, &cfg);
+    let mut f = std::io::BufWriter::new(std::fs::File::create(trace).expect("trace file"));
+    let mut rep = Report::default();
+    for (v, r) in cases.iter().zip(results.iter()) {
+        rep.evaluations += 1;
+        let progv = V::from_json(&v["prog"]).unwrap();
+        let envv = V::from_json(&v["env"]).unwrap();
+        let case = json!({"prog": v["prog"], "env": v["env"], "prog_text": progv.show(), "env_text": envv.show()});
+        if r.get("abort").is_some() || r.get("timeout").is_some() || r.get("panic").is_some() {
+            rep.violation(json!({"property": "C06", "kind": "crash", "case": case, "observed": r}));
+            let ev = json!({"prog": v["prog"], "env": v["env"], "cons": ["fuel"], "step": ["abort"], "opt": ["fail"]});
+            writeln!(f, "{}", ev).unwrap();
+            continue;
+        }
+        if r.get("cons").is_none() {
+            panic!("unexpected worker result {r}");
+        }
+        let cons = Outcome::from_json(&r["cons"]).unwrap();
+        let step = Outcome::from_json(&r["step"]["int"]).unwrap();
+        let o = &r["opt"];
+        let optj = if o.get("out").is_some() {
+            json!(["out", o["out"], Outcome::from_json(&o["res"]).unwrap().to_json()])
+        } else {
+            json!(["fail"])
+        };
+        let ev = json!({"prog": v["prog"], "env": v["env"], "cons": cons.to_json(), "step": step.to_json(), "opt": optj});
+        writeln!(f, "{}", ev).unwrap();
+        rep.count(&format!("consensus_{}", cons.kind()));
+        if !matches!(step, Outcome::Fuel) && !matches!(cons, Outcome::Fuel) {
+            rep.count("step_compared");
+            if !same_class(&step, &cons) {
+                rep.violation(json!({"property": "C06", "kind": "stepper-vs-consensus", "spelling": "int",
+                    "case": case, "stepper": step.to_json_msg(), "consensus": cons.to_json_msg()}));
+            }
+        }
+        if o.get("changed").and_then(|b| b.as_bool()).unwrap_or(false) {
+            rep.count("opt_changed");
+        }
+        if let Outcome::Ok(want) = &cons {
+            rep.nontrivial(&format!("{}|{}", v["prog"], v["env"]));
+            if o.get("out").is_none() {
+                rep.violation(json!({"property": "C04", "kind": "optimizer-rejects", "case": case,
+                    "consensus": cons.to_json(), "observed": o}));
+            } else {
+                let res = Outcome::from_json(&o["res"]).unwrap();
+                if !matches!(&res, Outcome::Ok(got) if got == want) {
+                    let outv = V::from_json(&o["out"]).unwrap();
+                    rep.violation(json!({"property": "C04", "kind": "optimizer-changes-value", "case": case,
+                        "consensus": cons.to_json(), "optimized": o["out"], "optimized_text": outv.show(),
+                        "optimized_result": res.to_json_msg()}));
+                }
+            }
+        }
+        if cons.is_ok() {
+            rep.sample(json!({"case": case, "consensus": cons.to_json(), "stepper": step.to_json(), "optimizer": optj}));
+        }
+    }
+    rep.traces = rep.evaluations;
+    rep.write(outp);
+}
